@@ -247,6 +247,8 @@ pub struct Profile {
     pub len: std::ops::Range<usize>,
     /// restrict stSei/bSei choice: None = both
     pub only_bsei: bool,
+    /// probability (percent) that a slashing event follows the prefix bonds
+    pub prefix_slash_pct: u32,
 }
 
 impl Profile {
@@ -280,6 +282,7 @@ impl Profile {
             prefix_bonds: 1..4,
             len: 8..60,
             only_bsei: false,
+            prefix_slash_pct: 0,
         }
     }
 }
@@ -428,14 +431,81 @@ pub struct History {
 }
 
 pub fn history_strategy(p: &Profile, cfgs: BoxedStrategy<Cfg>) -> BoxedStrategy<History> {
+    let pct = p.prefix_slash_pct;
     (
         cfgs,
         proptest::collection::vec(bond_strategy(p), p.prefix_bonds.clone()),
         proptest::collection::vec(op_strategy(p), p.len.clone()),
+        (0u32..100, 0u8..5, 1u16..=300),
     )
-        .prop_map(|(cfg, mut a, b)| {
+        .prop_map(move |(cfg, mut a, b, (roll, v, permille))| {
+            if roll < pct {
+                a.push(Op::Slash { v, permille, unbonding: false });
+            }
             a.extend(b);
             History { cfg, ops: a }
+        })
+        .boxed()
+}
+
+/// Structured generator: k consecutive unbond batches (several users, both tokens, small or large
+/// amounts), optional slashing of unbonding stake and unsolicited transfers, then maturity and withdrawals by
+/// everybody. Produces release groups (often multi-batch) in every case.
+pub fn release_scenario_strategy(cfgs: BoxedStrategy<Cfg>) -> BoxedStrategy<History> {
+    let small = any::<bool>();
+    let batch = |small: bool| {
+        let amt = if small { small_amt_strategy() } else { amt_strategy() };
+        let _ = amt;
+        (
+            proptest::collection::vec((0u8..6, any::<bool>(), frac()), 1..5),
+            prop_oneof![3 => Just(1i8), 1 => Just(2i8), 1 => Just(0i8)],
+            proptest::option::weighted(0.35, (0u8..5, prop_oneof![Just(500u16), Just(250u16), Just(100u16), 1u16..500], any::<bool>())),
+            proptest::option::weighted(0.15, small_amt_strategy()),
+        )
+    };
+    (cfgs, small, 1usize..5)
+        .prop_flat_map(move |(cfg, small, k)| {
+            let bond_amt = if small { small_amt_strategy() } else { amt_strategy() };
+            (
+                Just(cfg),
+                proptest::collection::vec((0u8..6, any::<bool>(), bond_amt), 2..7),
+                proptest::collection::vec(batch(small), k..=k),
+                prop_oneof![Just(Clock::Unbond(0)), Just(Clock::Unbond(1)), Just(Clock::Long), Just(Clock::Unbond(-1))],
+                proptest::collection::vec(0u8..8, 2..10),
+                any::<bool>(),
+            )
+        })
+        .prop_map(|(cfg, bonds, batches, fin, withdrawers, second_round)| {
+            let mut ops = vec![];
+            for (u, st, amt) in bonds {
+                ops.push(Op::Bond { u, st, amt });
+            }
+            for (unbonds, eoff, slash, donate) in batches {
+                for (u, st, frac) in unbonds {
+                    ops.push(Op::Unbond { u, st, frac });
+                }
+                ops.push(Op::Advance { clock: Clock::Epoch(eoff) });
+                // the next unbond (first of the next batch, or this trailing one) closes the batch
+                ops.push(Op::Unbond { u: 0, st: false, frac: 0 });
+                ops.push(Op::Unbond { u: 0, st: true, frac: 0 });
+                if let Some((v, permille, unbonding)) = slash {
+                    ops.push(Op::Slash { v, permille, unbonding: unbonding || permille % 2 == 0 });
+                }
+                if let Some(amt) = donate {
+                    ops.push(Op::Donate { to: 0, coin: 0, amt });
+                }
+            }
+            ops.push(Op::Advance { clock: fin });
+            for u in &withdrawers {
+                ops.push(Op::Withdraw { u: *u });
+            }
+            if second_round {
+                ops.push(Op::Advance { clock: Clock::Long });
+                for u in &withdrawers {
+                    ops.push(Op::Withdraw { u: *u });
+                }
+            }
+            History { cfg, ops }
         })
         .boxed()
 }
@@ -493,6 +563,18 @@ impl Interp {
     fn val(&self, v: u8) -> String {
         val(clampu(v, self.cfg.n_vals))
     }
+    /// first user at index >= u (wrapping) holding a balance of the token; falls back to user u
+    fn holder(&self, w: &World, u: u8, st: bool) -> String {
+        let n = self.cfg.n_users;
+        let u = clampu(u, n);
+        for k in 0..n {
+            let cand = user((u + k) % n);
+            if bal(w, tok(st), &cand) > 0 {
+                return cand;
+            }
+        }
+        user(u)
+    }
     /// recipients of transfers: users, then a few contracts
     fn recipient(&self, to: u8) -> String {
         if to < self.cfg.n_users {
@@ -534,7 +616,7 @@ impl Interp {
             Op::BondBad { u, st, kind } => vec![ROp::BondBad { user: self.user(*u), st: *st, kind: *kind }],
             Op::Unbond { u, st, frac } | Op::Convert { u, st, frac } => {
                 let convert = matches!(op, Op::Convert { .. });
-                let user = self.user(*u);
+                let user = self.holder(w, *u, *st);
                 let b = bal(w, tok(*st), &user);
                 if b == 0 {
                     return noop("hook: no balance");
@@ -542,7 +624,7 @@ impl Interp {
                 vec![ROp::Hook { owner: user.clone(), caller: user, st: *st, amount: frac_of(b, *frac), convert }]
             }
             Op::HookFrom { owner, spender, st, frac, convert } => {
-                let owner = self.user(*owner);
+                let owner = self.holder(w, *owner, *st);
                 let mut spender = self.user(*spender);
                 if spender == owner {
                     spender = KEEPER.to_string();
@@ -559,7 +641,7 @@ impl Interp {
             }
             Op::Withdraw { u } => vec![ROp::Withdraw { user: self.user(*u) }],
             Op::Transfer { u, to, st, frac } => {
-                let from = self.user(*u);
+                let from = self.holder(w, *u, *st);
                 let b = bal(w, tok(*st), &from);
                 if b == 0 {
                     return noop("transfer: no balance");
@@ -567,7 +649,7 @@ impl Interp {
                 vec![ROp::Transfer { from, to: self.recipient(*to), st: *st, amount: frac_of(b, *frac) }]
             }
             Op::SendSink { u, st, frac } => {
-                let from = self.user(*u);
+                let from = self.holder(w, *u, *st);
                 let b = bal(w, tok(*st), &from);
                 if b == 0 {
                     return noop("send_sink: no balance");
@@ -611,7 +693,7 @@ impl Interp {
                 vec![ROp::TransferFrom { owner, spender: sp, to: self.recipient(*to), st: *st, amount: frac_of(a, *frac) }]
             }
             Op::BurnFrom { owner, spender, st, frac } => {
-                let owner = self.user(*owner);
+                let owner = self.holder(w, *owner, *st);
                 let mut sp = self.user(*spender);
                 if sp == owner {
                     sp = KEEPER.to_string();
